@@ -27,12 +27,22 @@ VARIANTS = [(True, "WAppend", True), (True, "WAppend", False),
             (False, "WAppend", True), (False, "WAppend", False), (False, "WTruncate", True), (False, "WTruncate", False)]
 
 
-def S(*labels, cwd="clean"):
-    return {"mode": "standard", "sizes": list(labels), "cwd": cwd}
+# every accepted SPELLING of the mode arguments (the normalisers lower-case and strip): the export must behave
+# exactly like the canonical spelling
+SPELLINGS = {"canon": lambda s: s, "upper": lambda s: s.upper(), "cap": lambda s: s.capitalize(),
+             "pad": lambda s: f"  {s} ", "padcap": lambda s: f" {s.capitalize()}\t\n"}
 
 
-def W(*labels, cwd="clean"):
-    return {"mode": "web", "sizes": list(labels), "cwd": cwd}
+def spell(st, word, which):
+    return SPELLINGS[st.get(which, "canon")](word)
+
+
+def S(*labels, cwd="clean", sp="canon", rsp="canon"):
+    return {"mode": "standard", "sizes": list(labels), "cwd": cwd, "sp": sp, "rsp": rsp}
+
+
+def W(*labels, cwd="clean", sp="canon", rsp="canon"):
+    return {"mode": "web", "sizes": list(labels), "cwd": cwd, "sp": sp, "rsp": rsp}
 
 
 FIXED = [
@@ -61,6 +71,16 @@ FIXED = [
     ("clash:web-unaffected", [S("1MiB"), W("1MiB", cwd="clash")]),
     ("clash:double-raise-then-recover", [S("1MiB"), S("0.5MiB", cwd="clash"), S("1MiB-36", cwd="clash"), S("1MiB+4", cwd="dest")]),
     ("dest:large->large->large", [S("3MiB", cwd="dest"), S("1MiB", cwd="dest"), S("1MiB+4", cwd="dest")]),
+] + [
+    # per non-canonical spelling of export_mode AND return_mode: large standard, large web over the stale sidecar,
+    # small web; then a small standard export over it
+    (f"spelling:{k}", [S("3MiB", sp=k, rsp=k), W("3MiB", sp=k, rsp=k), W("0.5MiB", sp=k, rsp=k), S("1MiB", sp=k, rsp=k),
+                       S("0.5MiB", sp=k, rsp=k)])
+    for k in SPELLINGS if k != "canon"
+] + [
+    ("spelling:web-only-export_mode", [S("1MiB"), W("1MiB", sp="upper")]),
+    ("spelling:web-alone-large", [W("3MiB", sp="cap")]),
+    ("spelling:return_mode-only", [S("1MiB", rsp="upper"), W("1MiB", rsp="pad")]),
 ]
 
 
@@ -72,13 +92,18 @@ def random_history(rng):
         n = 1 if rng.random() < 0.8 else 2
         r = rng.random()
         cwd = "clean" if r < 0.7 else ("dest" if r < 0.95 else "clash")
-        h.append({"mode": mode, "sizes": [rng.choice(labels) for _ in range(n)], "cwd": cwd})
+        sp = rng.choice(list(SPELLINGS)) if rng.random() < 0.35 else "canon"
+        rsp = rng.choice(list(SPELLINGS)) if rng.random() < 0.2 else "canon"
+        h.append({"mode": mode, "sizes": [rng.choice(labels) for _ in range(n)], "cwd": cwd, "sp": sp, "rsp": rsp})
     return h
 
 
 def hist_key(h):
-    return ">".join(f"{s['mode'][0].upper()}:{'+'.join(s['sizes'])}" + ("" if s["cwd"] == "clean" else "@" + s["cwd"])
-                    for s in h)
+    def one(s):
+        sp, rsp = s.get("sp", "canon"), s.get("rsp", "canon")
+        tag = "" if sp == rsp == "canon" else f"[{sp}" + ("" if rsp == "canon" else f",return_mode={rsp}") + "]"
+        return f"{s['mode'][0].upper()}{tag}:{'+'.join(s['sizes'])}" + ("" if s["cwd"] == "clean" else "@" + s["cwd"])
+    return ">".join(one(s) for s in h)
 
 
 def det(m):
@@ -108,6 +133,51 @@ def threshold_from_source():
     src = inspect.getsource(user_interface.to_onnx)
     m = re.search(r"external_threshold\s*:\s*int\s*=\s*([0-9_]+)", src)
     return int(m.group(1).replace("_", "")) if m else None
+
+
+def mode_argument_uses(src=None):
+    """AST tie: inside to_onnx the raw arguments `return_mode` / `export_mode` may only be (a) passed to their
+    normaliser, (b) formatted into a log string; every other use (comparison, argument of another call such as
+    `_save_model_proto(..., mode=...)`) must go through the variable assigned from the normaliser.
+    Returns (list of offending source fragments, number of uses inspected, {raw: normalised variable})."""
+    import ast
+    import textwrap
+    if src is None:
+        from jax2onnx import user_interface
+        src = inspect.getsource(user_interface.to_onnx)
+    tree = ast.parse(textwrap.dedent(src))
+    fn = next(n for n in ast.walk(tree) if isinstance(n, ast.FunctionDef) and n.name == "to_onnx"
+              and not any(isinstance(d, ast.Name) and d.id == "overload" for d in n.decorator_list))
+    raw = {"return_mode": "_normalize_return_mode", "export_mode": "_normalize_export_mode"}
+    norm_var, bad, uses = {}, [], 0
+    parents = {}
+    for node in ast.walk(fn):
+        for ch in ast.iter_child_nodes(node):
+            parents[ch] = node
+    for node in ast.walk(fn):
+        if isinstance(node, ast.Name) and node.id in raw and isinstance(node.ctx, ast.Load):
+            uses += 1
+            par = parents.get(node)
+            if isinstance(par, ast.FormattedValue):
+                continue
+            if (isinstance(par, ast.Call) and isinstance(par.func, ast.Name) and par.func.id == raw[node.id]
+                    and par.args == [node] and not par.keywords):
+                asg = parents.get(par)
+                if isinstance(asg, ast.Assign) and len(asg.targets) == 1 and isinstance(asg.targets[0], ast.Name):
+                    norm_var[node.id] = asg.targets[0].id
+                    continue
+            bad.append(f"line {node.lineno}: {ast.unparse(par)[:120]}")
+    for r in raw:
+        if r not in norm_var:
+            bad.append(f"{r} is never normalised into a variable")
+    # the save helper must receive the normalised export mode
+    for node in ast.walk(fn):
+        if isinstance(node, ast.Call) and isinstance(node.func, ast.Name) and node.func.id == "_save_model_proto":
+            uses += 1
+            kw = [k for k in node.keywords if k.arg == "mode"]
+            if not (len(kw) == 1 and isinstance(kw[0].value, ast.Name) and kw[0].value.id == norm_var.get("export_mode")):
+                bad.append(f"line {node.lineno}: {ast.unparse(node)[:160]}")
+    return bad, uses, norm_var
 
 
 class Env:
@@ -154,9 +224,17 @@ def run_history(h, root, seed, fails, stats):
         for k, st in enumerate(h):
             sizes = [SIZES[s] for s in st["sizes"]]
             fn, ws = make_fn(sizes, seed * 131 + k + 1)
-            proto = to_onnx(fn, [(1,)], return_mode="proto")
-            irm = to_onnx(fn, [(1,)], return_mode="ir")
-            ir_proto = ir.to_proto(irm)
+            mode_arg = spell(st, st["mode"], "sp")                 # the export_mode string actually passed
+            try:
+                proto = to_onnx(fn, [(1,)], return_mode=spell(st, "proto", "rsp"))
+                irm = to_onnx(fn, [(1,)], return_mode=spell(st, "ir", "rsp"))
+                if not isinstance(proto, onnx.ModelProto) or not isinstance(irm, ir.Model):
+                    raise TypeError(f"return types {type(proto).__name__}, {type(irm).__name__}")
+                ir_proto = ir.to_proto(irm)
+            except Exception as e:  # noqa: BLE001
+                fails.append((k, f"return-mode-fails:{type(e).__name__}",
+                              f"return_mode spelled {spell(st, 'proto', 'rsp')!r}/{spell(st, 'ir', 'rsp')!r}: {type(e).__name__}: {e}"))
+                break
             pb = det(proto)
             inits = [(t.name, len(t.raw_data) if t.HasField("raw_data") else 0) for t in proto.graph.initializer]
             if pb != det(ir_proto):
@@ -167,7 +245,7 @@ def run_history(h, root, seed, fails, stats):
             raised = None
             os.chdir(cwd_dir)
             try:
-                ret = to_onnx(fn, [(1,)], return_mode="file", output_path=out_path, export_mode=st["mode"])
+                ret = to_onnx(fn, [(1,)], return_mode=spell(st, "file", "rsp"), output_path=out_path, export_mode=mode_arg)
             except Exception as e:  # noqa: BLE001 - every failure of the file mode is a finding
                 raised = e
             finally:
@@ -179,7 +257,7 @@ def run_history(h, root, seed, fails, stats):
             if raised is not None:
                 stats["raised"] += 1
                 fails.append((k, f"file-export-raises:{type(raised).__name__}",
-                              f"return_mode='file' export_mode={st['mode']!r} raised {type(raised).__name__}: {raised} "
+                              f"return_mode={spell(st, 'file', 'rsp')!r} export_mode={mode_arg!r} raised {type(raised).__name__}: {raised} "
                               f"(cwd={st['cwd']}, directory before: {pre}) while proto/ir modes delivered the model"))
                 if listing != pre:
                     damaged = ""
@@ -249,7 +327,8 @@ def run_history(h, root, seed, fails, stats):
                     stats["ort_vs_numpy_diff"] += 1
                 if st["mode"] == "web":
                     if list(listing) != [NAME]:
-                        fails.append((k, "web-not-single-file", f"directory after web export: {listing}"))
+                        fails.append((k, "web-not-single-file", f"directory after export_mode={mode_arg!r} export: {listing} "
+                                                              f"(external refs in the main file: {rec['refs']})"))
                     alone = os.path.join(env.root, f"alone{k}")
                     os.makedirs(alone)
                     shutil.copy(env.path, os.path.join(alone, NAME))
@@ -359,6 +438,12 @@ def run(ctx):
     thr_src = threshold_from_source()
     ctx.oblige("tie:external_threshold-found-in-to_onnx-source", thr_src is not None, "tie",
                "" if thr_src is not None else "could not find `external_threshold: int = ...` in to_onnx")
+    try:
+        bad_uses, n_uses, norm_var = mode_argument_uses()
+        ctx.oblige(f"tie:raw-return_mode/export_mode-only-reach-their-normaliser({n_uses} uses in to_onnx; normalised into "
+                   f"{norm_var})", not bad_uses, "tie", "; ".join(bad_uses))
+    except Exception as e:  # noqa: BLE001 - fail closed
+        ctx.oblige("tie:raw-return_mode/export_mode-only-reach-their-normaliser", False, "tie", f"{type(e).__name__}: {e}")
     overhead = sys.getsizeof(b"")
     thr = max(0, (thr_src or MiB) - overhead)      # onnx compares sys.getsizeof(raw_data), not len(raw_data)
 
@@ -370,7 +455,7 @@ def run(ctx):
     stats = {"exports": 0, "raised": 0, "ort_runs": 0, "ort_vs_numpy_diff": 0, "leftover_unreferenced_sidecar": 0,
              "sidecar_garbage_bytes_max": 0}
     recs_all, reported = [], set()
-    histo_mode, histo_size, histo_cwd, nontrivial = {}, {}, {}, set()
+    histo_mode, histo_size, histo_cwd, histo_spelling, nontrivial = {}, {}, {}, {}, set()
     raises_by_cwd, fail_counts, bad_locations, n_refs = {}, {}, [], 0
     for hi, (name, h) in enumerate(hists):
         fails = []
@@ -379,13 +464,15 @@ def run(ctx):
         recs_all.append(recs)
         for st, rec in zip(h, recs):
             histo_mode[st["mode"]] = histo_mode.get(st["mode"], 0) + 1
+            sk = f"export_mode={st.get('sp', 'canon')},return_mode={st.get('rsp', 'canon')}"
+            histo_spelling[sk] = histo_spelling.get(sk, 0) + 1
             histo_cwd[st["cwd"]] = histo_cwd.get(st["cwd"], 0) + 1
             for s in st["sizes"]:
                 histo_size[s] = histo_size.get(s, 0) + 1
             pre_sc = rec["pre"].get(NAME + ".data")
             spills = any(sz >= thr for _, sz in rec["inits"])
             if pre_sc is not None or spills:
-                nontrivial.add((pre_sc, st["mode"], tuple(st["sizes"]), st["cwd"]))
+                nontrivial.add((pre_sc, st["mode"], tuple(st["sizes"]), st["cwd"], st.get("sp", "canon"), st.get("rsp", "canon")))
             if rec["raised"]:
                 raises_by_cwd[st["cwd"]] = raises_by_cwd.get(st["cwd"], 0) + 1
         for (k, what, detail) in fails:
@@ -443,7 +530,7 @@ def run(ctx):
                                     "cwd_existence_check": variant[2]} if variant else None)
         if variant is not None:
             # the strong theorems (C15_load_after_save, C15_history_independent, C15_sidecar_exact) are about this variant
-            ctx.oblige("tie:current-code-removes-old-sidecar-before-writing(variant `repaired`)", variant[0], "tie",
+            ctx.oblige("tie:current-code-removes-old-sidecar-before-writing(v_remove_before = true)", variant[0], "tie",
                        "" if variant[0] else f"the code behaves like the variant without the removal {variant}: re-exports "
                                              f"append to / trip over the old sidecar")
             # since /repo e203da0 the unconditional theorem C15_load_after_save_no_cwd_check is the one that applies
@@ -459,7 +546,8 @@ def run(ctx):
                 "the Coq model is evaluated on every history under 6 code/writer variants; non-trivial = distinct (sidecar size before, "
                 "mode, parameter sizes, cwd) where a sidecar pre-exists or the export spills",
         "threshold": {"external_threshold_in_source": thr_src, "sys.getsizeof(b'')": overhead, "effective_byte_threshold": thr},
-        "histogram": {"mode": histo_mode, "size": histo_size, "cwd": histo_cwd},
+        "histogram": {"mode": histo_mode, "size": histo_size, "cwd": histo_cwd, "spelling": histo_spelling},
+        "spellings": {k: f("web") for k, f in SPELLINGS.items()},
         "observations": {
             "exports_that_raised": stats["raised"], "raised_by_cwd": raises_by_cwd,
             "steps_leaving_an_unreferenced_sidecar_behind": stats["leftover_unreferenced_sidecar"],
@@ -472,7 +560,7 @@ def run(ctx):
     })
     ctx.samples = [{"history": hist_key(h), "after_last_step": {"files": recs[-1]["listing"], "refs": recs[-1]["refs"],
                                                                 "raised": recs[-1]["raised"], "reload_equal": recs[-1]["reload_equal"]}}
-                   for (_, h), recs in list(zip(hists, recs_all))[:8]]
+                   for (_, h), recs in list(zip(hists, recs_all))[:8] if recs]
     return ctx
 
 
